@@ -22,7 +22,8 @@ git file: lines `m TAB key TAB value` (`[delta]`), `s TAB feature TAB key TAB va
 
 Response: `ok <x features joined by space> <v1> <v2> …` with one `v` per probe:
 `c:<xhex>` command line, `g:<xhex>` git config text, `b:<xhex>` builtin literal,
-`f:0|1` builtin boolean, `y:<xhex>` builtin dynamic default, `d` clap default.
+`f:0|1` builtin boolean, `y:<xhex>` builtin dynamic default, `d` clap default,
+`r:<xhex>` clap default rewritten before the macro, `w:<xhex>` value written after the macro.
 
 `opts.info` → `ok <x flagIteration> <x builtin names joined by space>`.
 -/
@@ -64,6 +65,8 @@ def showVal : Val → String
   | .bdef (.flag b) => if b then "f:1" else "f:0"
   | .bdef (.dyn e) => "y:" ++ hexOfString e
   | .dflt => "d"
+  | .pre s => "r:" ++ hexOfString s
+  | .post s => "w:" ++ hexOfString s
 
 def stepOpts (line : String) : String :=
   match fields line with
@@ -82,7 +85,7 @@ def stepOpts (line : String) : String :=
       let π := (pi.splitOn " ").filter (· ≠ "")
       let feats := gatherFeatures π inp
       let vals := ((probes.splitOn " ").filter (· ≠ "")).map fun o =>
-        showVal (effectiveWith feats inp o)
+        showVal (finalWith feats inp o)
       "ok " ++ hexOfString (" ".intercalate feats) ++ " " ++ " ".intercalate vals
     | _, _, _, _, _, _, _, _, _, _ => "ERR"
   | _ => "ERR"
